@@ -1,0 +1,36 @@
+//go:build verif
+
+// Package verifhook is an observation hook for the runtime monitors in /verif.
+// With the build tag "verif" every call appends one JSON object to the file
+// named by the environment variable CRS_VERIF_TRACE (nothing happens when it
+// is unset). Without the tag Emit is an empty function.
+package verifhook
+
+import (
+	"encoding/json"
+	"os"
+)
+
+type event struct {
+	Site string   `json:"site"`
+	In   []string `json:"in"`
+	Out  string   `json:"out"`
+}
+
+// Emit records one observation. It only reads its arguments.
+func Emit(site string, in []string, out string) {
+	path := os.Getenv("CRS_VERIF_TRACE")
+	if path == "" {
+		return
+	}
+	line, err := json.Marshal(event{Site: site, In: append([]string{}, in...), Out: out})
+	if err != nil {
+		return
+	}
+	file, err := os.OpenFile(path, os.O_APPEND|os.O_CREATE|os.O_WRONLY, 0o644)
+	if err != nil {
+		return
+	}
+	defer file.Close()
+	_, _ = file.Write(append(line, '\n'))
+}
